@@ -56,6 +56,8 @@ fn main() {
         "dump" => dump(&args[2..]),
         "digest" => digest(&args[2..]),
         "minimise" => minimise_cmd(&args[2..]),
+        "miri" => miri_cmd(&args[2..]),
+        "miri-threads" => miri_threads(&args[2..]),
         _ => {
             eprintln!("usage: hpsim check <C01..C20> <quick|thorough> | replay <file> | dump <id> <index> | digest <id> <n>");
             2
@@ -690,6 +692,80 @@ fn minimise_cmd(a: &[String]) -> i32 {
     let Ok(t) = Trace::from_json(&j) else { return 2 };
     let m = minimise::minimise(&t, mask, prop, oracle, budget, Some(outp.clone()));
     let _ = std::fs::write(outp, m.to_json().compact());
+    0
+}
+
+/// `miri-conn`: a small batch of traces executed in-process (this binary itself runs under Miri).
+fn miri_cmd(a: &[String]) -> i32 {
+    let id = parse_id(&a[0]).unwrap();
+    let from: u64 = a[1].parse().unwrap();
+    let to: u64 = a[2].parse().unwrap();
+    let seed: u64 = a.get(3).and_then(|s| s.parse().ok()).unwrap_or(DEFAULT_SEED);
+    let plan = plan::plan(id).unwrap();
+    let tag = rng::tag_of(&pname(id));
+    let mut arena = arena::Arena::new();
+    let mut stats = Stats::default();
+    let mut nviol = 0;
+    for i in from..to {
+        let rs = rng::run_seed(seed, tag, i);
+        let mut t = plan.generate(rs, i, false);
+        // keep interpreted runs small
+        if t.scen == trace::Scen::Adversarial {
+            continue;
+        }
+        for c in t.conns.iter_mut() {
+            let lim = if t.scen == trace::Scen::Sweep { 90 } else { 600 };
+            if c.wire.len() > lim {
+                c.wire.truncate(lim);
+                c.truth.clear();
+                for d in c.deliveries.iter_mut() {
+                    d.upto = d.upto.min(lim);
+                }
+                for u in c.alt.iter_mut() {
+                    *u = (*u).min(lim);
+                }
+            }
+        }
+        t.conns.truncate(2);
+        t.alloc_mode = 1;
+        let (v, _) = execute(&mut arena, &mut stats, &t, plan.mask, false);
+        for x in v {
+            println!("MIRI-VIOLATION run={} {} {} {}", i, pname(x.prop), x.oracle, x.detail);
+            nviol += 1;
+        }
+    }
+    println!("MIRI-CONN plan={} runs={}..{} calls={} violations={}", pname(id), from, to, stats.calls, nviol);
+    if nviol > 0 {
+        1
+    } else {
+        0
+    }
+}
+
+/// Cold-start race with real threads; meaningful under Miri (`-Zmiri-many-seeds`), whose scheduler
+/// and data-race detector own the interleaving.
+fn miri_threads(a: &[String]) -> i32 {
+    let n: usize = a.first().and_then(|s| s.parse().ok()).unwrap_or(4);
+    const REQ: &[u8] = b"GET /a/rather/long/target/so-that-the-vector-loop-runs/0123456789/abcdefghijklmnop HTTP/1.1\r\nHost: example.org\r\nX-Long: 0123456789abcdefghijklmnopqrstuvwxyz0123456789\r\n\r\n";
+    fn one() -> (u8, usize, usize) {
+        let mut h = [httparse::EMPTY_HEADER; 4];
+        let mut r = httparse::Request::new(&mut h);
+        match r.parse(REQ) {
+            Ok(httparse::Status::Complete(n)) => (0, n, r.headers.len()),
+            Ok(httparse::Status::Partial) => (1, 0, 0),
+            Err(_) => (2, 0, 0),
+        }
+    }
+    let hs: Vec<_> = (0..n).map(|_| std::thread::spawn(one)).collect();
+    let got: Vec<_> = hs.into_iter().map(|h| h.join().unwrap()).collect();
+    let reference = one();
+    for g in &got {
+        if *g != reference {
+            println!("MIRI-VIOLATION C13 coldstart: thread result {:?} differs from reference {:?}", g, reference);
+            return 1;
+        }
+    }
+    println!("MIRI-THREADS ok n={} result={:?}", n, reference);
     0
 }
 
